@@ -139,6 +139,12 @@ func zvC21HeaderRef(b []byte) (byte, byte) {
 	if l < min[typ] {
 		return 1, 2
 	}
+	if typ == 4 && l != 19 && len(b) >= l {
+		// "if the Length field of a KEEPALIVE message is not equal to 19" - demanded once the announced octets have
+		// arrived: the implementation reads a message completely before it looks at it, and waiting for the rest of
+		// a message is not an error
+		return 1, 2
+	}
 	return 0, 0
 }
 
